@@ -26,6 +26,14 @@ impl<'a> Iterator for Ipv6ExtensionSliceIter<'a> {
         use ip_number::*;
         use Ipv6ExtensionSlice::*;
 
+        // A laxly parsed extension slice ends in front of the header
+        // that could not be parsed (even though the previous header
+        // announces it). The slice only contains complete & validated
+        // headers, so nothing is left to iterate over once it is empty.
+        if self.rest.is_empty() {
+            return None;
+        }
+
         match self.next_header {
             // Note on the unsafe calls:
             //
